@@ -8,6 +8,11 @@ pub(crate) mod verif_s {
 
     const MAX_FRAME: Frame = 1 << 20;
 
+    /// for the session-level harnesses: move the frame counter without running frames
+    pub(crate) fn set_current_frame(sl: &mut SyncLayer<CfgRL>, f: Frame) {
+        sl.current_frame = f;
+    }
+
     fn any_frame_or_null() -> Frame {
         let f: Frame = kani::any();
         kani::assume(f >= NULL_FRAME && f < MAX_FRAME);
